@@ -112,7 +112,13 @@ func scratch() string {
 }
 
 type runner struct {
-	expect   stor.DBSpec // what a complete dump must load to (the source, or the scrubbed source)
+	t         *testing.T
+	cfg       simrt.Config
+	dumpN     int
+	cancel    context.CancelFunc
+	simClass  string
+	simDetail string
+	expect    stor.DBSpec // what a complete dump must load to (the source, or the scrubbed source)
 	w        WL
 	base     string
 	out      string
@@ -240,7 +246,21 @@ func (r *runner) afterResume(src stor.DBSpec, err error, pre map[string]string, 
 func (r *runner) dump(ctx context.Context, src *simdb.DB, targets []retriever.GraphTarget, driver string, o retriever.DumpOptions, plan simos.Plan) (error, simos.Report) {
 	plan.Rel = r.base
 	simos.Reset(plan)
-	_, err := retriever.Dump(ctx, src, driver, targets, o)
+	var err error
+	r.dumpN++
+	if c, d := stor.UnderSim(r.t, r.cfg, fmt.Sprintf("dump#%d", r.dumpN), func() {
+		// contexts are created inside the simulated run (a bubble's channels must not be closed from outside)
+		cctx, cancel := context.WithCancel(context.Background())
+		r.cancel = cancel
+		defer cancel()
+		_, err = retriever.Dump(cctx, src, driver, targets, o)
+	}); c != "" {
+		// the simulator's own verdict (hang, leak, panic, lost control) outranks the call's result
+		if r.simClass == "" {
+			r.simClass, r.simDetail = c, d
+		}
+		err = fmt.Errorf("simulator: %s: %s", c, d)
+	}
 	rep := simos.Snapshot()
 	simos.Disable()
 	return err, rep
@@ -501,8 +521,7 @@ func errnoOf(s string) syscall.Errno {
 func (r *runner) errorRun() (string, string) {
 	f := r.w.Fault
 	os.RemoveAll(r.out)
-	ctx, cancel := context.WithCancel(context.Background())
-	defer cancel()
+	ctx := context.Background()
 	src := stor.Build(r.w.DB)
 	targets := stor.Targets(r.w.DB)
 	plan := simos.Plan{}
@@ -533,7 +552,7 @@ func (r *runner) errorRun() (string, string) {
 		src.Hook = func(_ context.Context, site string) error {
 			if src.Calls == k {
 				r.counters["cancellations_injected"]++
-				cancel()
+				r.cancel()
 			}
 			return nil
 		}
@@ -570,7 +589,7 @@ func (r *runner) errorRun() (string, string) {
 	return "", ""
 }
 
-func exec(t *testing.T, w WL, _ simrt.Config) simh.Outcome {
+func exec(t *testing.T, w WL, cfg simrt.Config) simh.Outcome {
 	o := simh.Outcome{Counters: map[string]int{}}
 	nt := true
 	o.NonTrivial = &nt
@@ -581,7 +600,8 @@ func exec(t *testing.T, w WL, _ simrt.Config) simh.Outcome {
 	}
 	defer os.RemoveAll(base)
 	defer simos.Disable()
-	r := &runner{w: w, base: base, out: filepath.Join(base, "out"), counters: o.Counters}
+	r := &runner{w: w, base: base, out: filepath.Join(base, "out"), counters: o.Counters, t: t, cfg: cfg}
+	stor.SimSteps, stor.SimTasks = 0, 0
 	// reference run: fault free, logged
 	src := stor.Build(w.DB)
 	err, rep := r.dump(context.Background(), src, stor.Targets(w.DB), "simdb", r.opts(false), simos.Plan{Log: true})
@@ -636,6 +656,10 @@ func exec(t *testing.T, w WL, _ simrt.Config) simh.Outcome {
 		class, detail = r.errorRun()
 	}
 	o.Class, o.Detail = class, detail
+	if r.simClass != "" {
+		o.Class, o.Detail = r.simClass, r.simDetail
+	}
+	o.Res.Steps, o.Res.Tasks = stor.SimSteps, stor.SimTasks
 	o.Evals = r.evals
 	o.CaseHashes = r.hashes
 	var kinds []string
